@@ -861,6 +861,11 @@ pub fn c02_shapes(tier: Tier) -> Vec<ShapeSpec> {
     }
     v.push(ShapeSpec::Trimer(0.3, 120., 0.5));
     v.push(ShapeSpec::Trimer(1., 60., 0.8));
+    // small discs sitting deep in the central one (more than half inside) but apart from each other:
+    // the lens of such a pair is a major segment of the small disc
+    v.push(ShapeSpec::Trimer(0.5, 180., 0.7));
+    v.push(ShapeSpec::Trimer(0.4, 180., 0.7));
+    v.push(ShapeSpec::Trimer(0.3, 150., 0.75));
     v.push(ShapeSpec::Trimer(0.5, 120., 0.));
     v
 }
